@@ -124,12 +124,10 @@ Definition is_valid (c : ctx_table) (n : name) (v : validity) : bool :=
                | None => bpure [(v_contains, mem n s)] (ct_valid_default c)
                end
   end.
-(* get_register: `if <ct_get_cond> { Some(self.get_register_always(reg)) } else { None }` *)
+(* get_register: `if <ct_get_cond> { Some(<ct_get_val>) } else { None }`, the value an expression over self.get_register_always(reg) *)
 Definition get_register (c : ctx_table) (rf : regfile) (n : name) (v : validity) : outcome (option Z) :=
   if bpure [(v_iv, is_valid c n v)] (ct_get_cond c) then
-    match get_always c rf n with
-    | Ret x => Ret (Some x) | Fail => Fail | Panic t => Panic t | OutOfFuel => OutOfFuel
-    end
+    do x <- get_always c rf n; do y <- aeval rf [(v_ga, x)] (ct_get_val c); Ret (Some y)
   else Ret None.
 
 Fixpoint mapM {A B} (f : A -> outcome B) (l : list A) : outcome (list B) :=
@@ -186,7 +184,7 @@ Definition md_register_size (c : ctx_table) : outcome Z := aeval (fun _ _ => 0) 
 
 (* MinidumpContext dispatch (this variant's arms, regenerated from the source):
    get_register_always = the arm's expression over the forwarded call;
-   get_register = `let valid = <arm>; if valid { Some(self.get_register_always(reg)) } else { None }`;
+   get_register = `let valid = <arm>; if valid { Some(<ct_md_get_val>) } else { None }`;
    registers = general_purpose_registers().iter().map(|reg| (reg, <ct_md_regs_val>)), the value an expression over
      self.get_register_always(reg);
    valid_registers = registers().filter(|(reg, _)| <arm>) *)
@@ -196,7 +194,7 @@ Definition md_is_valid (e : bexp) (c : ctx_table) (rf : regfile) (n : name) (v :
   beval rf [(v_iv, if is_valid c n v then 1 else 0)] e.
 Definition md_get_register (c : ctx_table) (rf : regfile) (n : name) (v : validity) : outcome (option Z) :=
   do ok <- md_is_valid (ct_md_valid c) c rf n v;
-  if (ok : bool) then (do x <- md_get_always c rf n; Ret (Some x)) else Ret None.
+  if (ok : bool) then (do x <- md_get_always c rf n; do y <- aeval rf [(v_mga, x)] (ct_md_get_val c); Ret (Some y)) else Ret None.
 Definition md_named (c : ctx_table) (rf : regfile) (n : name) : outcome (name * Z) :=
   do x <- md_get_always c rf n; do y <- aeval rf [(v_mga, x)] (ct_md_regs_val c); Ret (n, y).
 Definition md_registers (c : ctx_table) (rf : regfile) : outcome (list (name * Z)) :=
